@@ -81,6 +81,7 @@ func Main(c *run.Ctx) {
 	c.Floor("pushes whose first series insert attempt fails", 1, 0)
 	c.Floor("histories with a cache reset between pushes", 1, 0)
 	c.Floor("samples within 1 s of UTC or local midnight", 10, 0)
+	c.Floor("bodies listing one stream twice with entries on different days", 3, 0)
 	c.Floor("pushes with one stream's entries on several UTC days and out of time order", 10, 0)
 }
 
@@ -559,6 +560,9 @@ func runHistory(c *run.Ctx, cfg childCfg, gi int) {
 		if o == 1 && gi%3 == 2 {
 			op = "push-unordered-days"
 		}
+		if o == 2 && gi%4 == 1 {
+			op = "push-stream-twice"
+		}
 		ops = append(ops, op)
 		tsFor := func() int64 {
 			switch op {
@@ -628,6 +632,18 @@ func runHistory(c *run.Ctx, cfg childCfg, gi int) {
 				}
 			}
 			lc.Streams = append(lc.Streams, st)
+		}
+		if op == "push-stream-twice" && len(lc.Streams) > 0 {
+			// one body that lists a stream twice (legal for every push protocol; agents that batch per flush do it): the
+			// second object's entries lie two days after the first's, and that day needs its series row like any other
+			st := lc.Streams[0]
+			t1 := st.Entries[0].TsNs + int64(48*time.Hour)
+			st.Entries = nil
+			for e := 0; e < 1+r.Intn(2); e++ {
+				st.Entries = append(st.Entries, gen.Entry{TsNs: t1 + int64(e), Line: fmt.Sprintf("L[h%d-%d-9-%d]", gi, o, e), HasLine: true})
+			}
+			lc.Streams = append(lc.Streams, st)
+			c.Floor("bodies listing one stream twice with entries on different days", 0, 1)
 		}
 		proto := []string{"loki-json-values", "loki-proto", "loki-json-entries"}[r.Intn(3)]
 		send := func(tag string) *push {
